@@ -14,7 +14,8 @@ use std::time::{Duration, Instant};
 
 use mdb_shard::cas_structs::{CASChunkSequenceEntry, CASChunkSequenceHeader, MDBCASInfo};
 use mdb_shard::file_structs::{FileDataSequenceEntry, FileDataSequenceHeader, MDBFileInfo};
-use mdb_shard::{MDBShardInfo, ShardFileManager};
+use mdb_shard::shard_in_memory::MDBInMemoryShard;
+use mdb_shard::{MDBShardFile, MDBShardInfo, ShardFileManager};
 use merklehash::MerkleHash;
 use vcore::report::{machinery_error, Args, Partial, Run, Tier};
 use vcore::sched::{self, ExploreCfg, RunResult};
@@ -28,6 +29,9 @@ enum Op {
     AddFile(u64),
     Flush,
     Query(u64),
+    /// register the (pre-written) shard file that holds xorb `i` with the manager, as the per-shard upload tasks of a
+    /// finalizing session do concurrently
+    Register(u64),
 }
 impl Op {
     fn to_json(&self) -> Value {
@@ -36,6 +40,7 @@ impl Op {
             Op::AddFile(i) => json!({"add_file": i}),
             Op::Flush => json!("flush"),
             Op::Query(i) => json!({"query": i}),
+            Op::Register(i) => json!({"register": i}),
         }
     }
     fn from_json(v: &Value) -> Op {
@@ -47,6 +52,9 @@ impl Op {
         }
         if let Some(i) = v["add_file"].as_u64() {
             return Op::AddFile(i);
+        }
+        if let Some(i) = v["register"].as_u64() {
+            return Op::Register(i);
         }
         Op::Query(v["query"].as_u64().unwrap_or(0))
     }
@@ -61,7 +69,8 @@ fn xorb(i: u64) -> MDBCASInfo {
     let mut pos = 0u32;
     for c in 0..3u64 {
         let len = (10 + 3 * i + c) as u32;
-        chunks.push(CASChunkSequenceEntry::new(h(100 + i, c), len, pos));
+        // (every chunk gets its own leading word: the managers index chunks by their first 64 bits)
+        chunks.push(CASChunkSequenceEntry::new(h(100 + 8 * i + c, c), len, pos));
         pos += len;
     }
     MDBCASInfo {
@@ -108,6 +117,10 @@ fn harnesses(tier: Tier) -> Vec<Harness> {
         hh("flush || add", vec![AddXorb(0)], vec![vec![Flush], vec![AddXorb(1)]]),
         hh("flush || add file", vec![AddXorb(0), AddFile(0)], vec![vec![Flush], vec![AddFile(1)]]),
         hh("add(auto-flush) || add || query", vec![AddXorb(0)], vec![vec![AddXorb(1), AddXorb(2)], vec![AddXorb(3), Query(0)]]),
+        // two shard files registered at once (the per-shard tasks of a finalizing session): afterwards the chunks of
+        // both must be found
+        hh("register || register", vec![], vec![vec![Register(4)], vec![Register(5)]]),
+        hh("register || register after one", vec![Register(6)], vec![vec![Register(4)], vec![Register(5)]]),
     ];
     if tier == Tier::Thorough {
         v.extend(vec![
@@ -133,6 +146,8 @@ struct Obs {
 }
 
 static DIR_COUNTER: AtomicUsize = AtomicUsize::new(0);
+/// (manager directory, xorb id, path of the pre-written shard file that holds that xorb)
+static REG_FILES: Mutex<Vec<(PathBuf, u64, PathBuf)>> = Mutex::new(Vec::new());
 
 fn apply(mgr: &ShardFileManager, op: &Op, added_x: &Mutex<Vec<u64>>, added_f: &Mutex<Vec<u64>>, errors: &Mutex<Vec<String>>, wrong: &Mutex<Vec<String>>) {
     match op {
@@ -147,6 +162,20 @@ fn apply(mgr: &ShardFileManager, op: &Op, added_x: &Mutex<Vec<u64>>, added_f: &M
         Op::Flush => {
             if let Err(e) = sched::block_on(mgr.flush()) {
                 errors.lock().unwrap().push(format!("{op:?}: {e:?}"));
+            }
+        },
+        Op::Register(i) => {
+            let dir = mgr.shard_directory().to_path_buf();
+            let path = REG_FILES.lock().unwrap().iter().find(|(d, j, _)| *d == dir && j == i).map(|x| x.2.clone());
+            match path {
+                None => errors.lock().unwrap().push(format!("{op:?}: no pre-written shard file")),
+                Some(p) => {
+                    let r = MDBShardFile::load_from_file(&p).and_then(|sf| sched::block_on(mgr.register_shards(&[sf])));
+                    match r {
+                        Ok(()) => added_x.lock().unwrap().push(1000 + *i),
+                        Err(e) => errors.lock().unwrap().push(format!("{op:?}: {e:?}")),
+                    }
+                },
             }
         },
         Op::Query(i) => {
@@ -175,6 +204,19 @@ fn body(hs: Harness, scratch: PathBuf, slot: Arc<Mutex<Option<Obs>>>) {
         std::fs::create_dir_all(&dir).unwrap();
     }
     let mgr = sched::block_on(ShardFileManager::new_in_session_directory(&dir)).expect("manager");
+    {
+        // the shard files that Register ops hand to the manager are written beforehand, outside the exploration
+        let _g = HookGuard::enter();
+        let mdir = mgr.shard_directory().to_path_buf();
+        for op in hs.pre.iter().chain(hs.threads.iter().flatten()) {
+            if let Op::Register(i) = op {
+                let mut m = MDBInMemoryShard::default();
+                m.add_cas_block(xorb(*i)).expect("add_cas_block");
+                let p = m.write_to_directory(&mdir).expect("write shard");
+                REG_FILES.lock().unwrap().push((mdir.clone(), *i, p));
+            }
+        }
+    }
     let added_x = Arc::new(Mutex::new(vec![]));
     let added_f = Arc::new(Mutex::new(vec![]));
     let errors = Arc::new(Mutex::new(vec![]));
@@ -193,6 +235,20 @@ fn body(hs: Harness, scratch: PathBuf, slot: Arc<Mutex<Option<Obs>>>) {
     }
     for hd in handles {
         let _ = hd.join();
+    }
+    // every shard whose registration returned Ok answers for its chunks
+    for i in added_x.lock().unwrap().iter().filter(|i| **i >= 1000).map(|i| *i - 1000).collect::<Vec<_>>() {
+        let x = xorb(i);
+        let q: Vec<MerkleHash> = x.chunks.iter().map(|c| c.chunk_hash).collect();
+        match sched::block_on(mgr.chunk_hash_dedup_query(&q)) {
+            Ok(Some((n, fse))) if fse.cas_hash == x.metadata.cas_hash && n == 3 && fse.chunk_index_start == 0 => {},
+            other => wrong.lock().unwrap().push(format!("REGISTERED shard of xorb {i}: its chunks are not found afterwards: {other:?}")),
+        }
+    }
+    added_x.lock().unwrap().retain(|i| *i < 1000);
+    {
+        let mdir = mgr.shard_directory().to_path_buf();
+        REG_FILES.lock().unwrap().retain(|(d, _, _)| *d != mdir);
     }
     // what finalize does: flush whatever is still in memory
     if let Err(e) = sched::block_on(mgr.flush()) {
@@ -251,6 +307,9 @@ fn body(hs: Harness, scratch: PathBuf, slot: Arc<Mutex<Option<Obs>>>) {
 }
 
 fn verdict(o: &Obs) -> Result<(), (String, String)> {
+    if let Some(w) = o.wrong_answers.iter().find(|w| w.starts_with("REGISTERED")) {
+        return Err(("C11/registered-shard-not-found-by-lookup".into(), w.clone()));
+    }
     if let Some(w) = o.wrong_answers.first() {
         return Err(("C11/dedup-answer-wrong-under-concurrency".into(), w.clone()));
     }
